@@ -76,6 +76,11 @@ def _cases(ctx, deep=False):
                               'script': [['bg_mem_write', k], ['sync_open'], ['sleep', 3.0], ['sync_close'], ['reconnect']]})
         cases.append({'cfg': {}, 'seed': rng.randrange(1 << 30),
                       'script': [['bg_mem_write', k], ['sync_open'], ['sleep', 1.0], ['sync_close'], ['reconnect']]})
+    # firmware re-announcing a parameter value during the download (value-updated notifications)
+    for s in range(seeds):
+        for npar in (3, 4):
+            cases.append({'cfg': {'n_log': 3, 'n_param': npar, 'dup_notify': True}, 'seed': rng.randrange(1 << 30),
+                          'script': [['sync_open'], ['sleep', 1.0], ['sync_close'], ['reconnect']]})
     # no driver / driver raises / silent peer
     for s in range(seeds):
         cases.append({'cfg': {}, 'no_driver': True, 'seed': s, 'script': [['open'], ['close']]})
